@@ -401,6 +401,15 @@ def _resolve_import(rule, target):
 
     imp_target = media_proxy or target
     for r in importedSheet:
+        if r.type == r.IMPORT_RULE:
+            # a kept @import moves up too: its href is relative to the imported sheet
+            kept = css.CSSImportRule(
+                href=Replacer(rule.href)(r.href),
+                mediaText=r.media.mediaText,
+                name=r.name,
+            )
+            kept.hreftype = r.hreftype
+            r = kept
         imp_target.add(r)
 
     if media_proxy:
